@@ -259,6 +259,19 @@ def rule_int(ctx, R, F):
                  'unsigned long m1 = (((x10 & 4294967295) + (x01 & 4294967295)) + (x00 >> 32))', 'unsigned long m2 = ((((x10 >> 32) + (x01 >> 32)) + (x11 & 4294967295)) + (m1 >> 32))',
                  'unsigned long m3 = ((x11 >> 32) + (m2 >> 32))', 'return ((m3 << 32) + (m2 & 4294967295))'],
     }
+    M64 = (1 << 64) - 1
+
+    def sx64(v):
+        v &= M64
+        return v - (1 << 64) if v >> 63 else v
+    ref = {
+        'rotr': lambda a, b: ((a >> (b & 63)) | (a << ((64 - (b & 63)) & 63))) & M64 if (b & 63) else a,
+        'rotl': lambda a, b: ((a << (b & 63)) | (a >> ((64 - (b & 63)) & 63))) & M64 if (b & 63) else a,
+        'mulh': lambda a, b: (a * b) >> 64,
+        'smulh': lambda a, b: ((sx64(a) * sx64(b)) >> 64) & M64,
+    }
+    edge = [0, 1, 2, 3, (1 << 31) - 1, 1 << 31, (1 << 32) - 1, 1 << 32, (1 << 32) + 1, (1 << 63) - 1, 1 << 63, (1 << 63) + 1, M64, M64 - 1, 0xFFFFFFFF00000000, 0x00000000FFFFFFFF,
+            0xAAAAAAAAAAAAAAAA, 0x5555555555555555, 0x8000000080000000, 0xDEADBEEFCAFEBABE, 0x0123456789ABCDEF, 0xFFFFFFFF80000000, 0x7FFFFFFF00000001]
     for q, e in exp.items():
         f = F.func(q)
         R.saw(fn=q + '@K1', unit=f['_unit'], config='K1')
@@ -274,6 +287,30 @@ def rule_int(ctx, R, F):
                     body += showv(s).split('; ')
                 else:
                     body.append(showv(s))
-        R.eq(q, '%s:%d' % (f['file'], f['line']), e, body)
+        where = '%s:%d' % (f['file'], f['line'])
+        if body == e:
+            R.ok(q, where, detail='canonical form (the textbook algorithm), accepted as correct for all operands')
+            continue
+        # not the form this checker knows to be correct: a static argument is out of reach, but the function is pure integer code, so look for a counterexample
+        # by evaluating its expression tree (fixed-width known-bits arithmetic on constants) on boundary operands
+        import domains
+        pairs = [(a_, b_) for a_ in edge for b_ in (edge if q in ('mulh', 'smulh') else list(range(64)))]
+        bad = None
+        for a_, b_ in pairs:
+            env = {f['params'][0]['id']: domains.KB.const(64, a_)}
+            if len(f['params']) > 1:
+                w1 = (domains.type_info(f['params'][1]['ty']) or (64, False))[0]
+                env[f['params'][1]['id']] = domains.KB.const(w1, b_)
+            r = domains.KBEval(F, env).run_body(f)
+            v = r.value() if r is not None else None
+            if v is None:
+                raise AnalysisBroken('PORT-INT: %s has a non-canonical body that the evaluator cannot follow (%s)' % (q, where))
+            if v & M64 != ref[q](a_, b_) & M64:
+                bad = (a_, b_, v & M64, ref[q](a_, b_) & M64)
+                break
+        if bad:
+            R.violation(q, where, expected='%s(%#x, %#x) = %#x' % (q, bad[0], bad[1], bad[3]), found='%#x (evaluating the function body on these operands)' % bad[2])
+        else:
+            raise AnalysisBroken('PORT-INT: %s (%s) is not in the canonical form and no counterexample was found on %d boundary operand pairs: its correctness for all operands cannot be decided statically' % (q, where, len(pairs)))
     sm = F.func('smulh')
     R.check(sm['ret'] == 'long' and [p['ty'] for p in sm['params']] == ['long', 'long'], 'smulh signature', '%s:%d' % (sm['file'], sm['line']), expected='int64 (int64, int64)', found=(sm['ret'], [p['ty'] for p in sm['params']]))
